@@ -66,7 +66,7 @@ class C19(Prop):
             from .common import case_from_cfg
             cfg = cp_cfg(rng, tier)
             cfg.tie_sync, cfg.streams, cfg.n_ranks, cfg.loner = True, rng.choice([(7, 9), (7, 9, 13), (9, 7)]), 1, False
-            cfg.n_steps, cfg.p_sync, cfg.p_event_sync, cfg.pre_ops, cfg.p_launch = 0, 0.0, 0.0, rng.choice([2, 3, 4]), 0.8   # nothing is trimmed; no earlier zero-weight waits
+            cfg.n_steps, cfg.p_sync, cfg.p_event_sync, cfg.pre_ops, cfg.p_launch, cfg.post_ops = 0, 0.0, 0.0, rng.choice([2, 3, 4]), 0.8, 1   # nothing is trimmed; no earlier zero-weight waits
             extra = {k: case[k] for k in ("rank", "incl", "zero", "ann", "inst", "iseed")}
             case = case_from_cfg(rng, cfg)
             case.update(extra)
